@@ -44,6 +44,47 @@ def arg_order_rule(chk, src, rule, rels, callees):
     return n
 
 
+
+def entry_gauge_rule(chk, src):
+    """abstract run of optimize_mps up to the construction of the environments, for every combination of the gauge flags of the input:
+    the state has been orthonormalised by an ensure_*_canonical() / canonicalise() call and the environment side matches the resulting gauge"""
+    from ..syminterp import SymInterp, Sym, Blob
+    fi = src.func(GS, "optimize_mps")
+
+    class Stop(Exception):
+        pass
+    n = 0
+    for left in (True, False):
+        for right in (True, False):
+            for omega in (None, Blob("omega")):
+                gauge = []
+                built = []
+
+                def environ(mps_, mpo_, side, *a, **k):
+                    built.append(side)
+                    raise Stop()
+                mps = Sym("mps", is_left_canonical=left, is_right_canonical=right, is_mix_canonical=False, to_right=None, qnidx=Blob("qnidx"), site_num=Blob("n"),
+                          optimize_config=Sym("cfg", method="2site", e_rtol=0, e_atol=0, procedure=[], nroots=1), compress_config=Blob("cc"))
+                mps.__dict__["ensure_right_canonical"] = lambda *a, **k: gauge.append("right") or mps
+                mps.__dict__["ensure_left_canonical"] = lambda *a, **k: gauge.append("left") or mps
+                mps.__dict__["canonicalise"] = lambda *a, **k: gauge.append("canonicalise") or mps
+                mpo = Sym("mpo", model=Blob("model"), add=lambda o: Sym("mpo2"), mpos=[])
+                ident = Sym("identity", scale=lambda x: Sym("scaled"))
+                it = SymInterp(src, None, {"Environ": environ, "logger": Blob("logger"), "StackedMpo": "StackedMpo", "Mpo": Sym("Mpo", identity=lambda m: ident)})
+                try:
+                    it.call_function(fi, [mps, mpo, omega])
+                except Stop:
+                    pass
+                n += 1
+                want = {"right": "R", "left": "L"}.get(gauge[-1]) if gauge else None
+                ok = bool(gauge) and built[:1] == [want]
+                chk.ob("entry-gauge", f"optimize_mps[input left-canonical={left}, right-canonical={right}, omega={'set' if omega else 'None'}]", ok, fi.where,
+                       {"orthonormalised by": gauge or "nothing", "environment side": built}, "ensure_right_canonical -> 'R' environments / ensure_left_canonical -> 'L'", line=fi.node.lineno,
+                       detail="the sweep treats the overlap environments as identities: this is only true after the state has actually been orthonormalised (the is_*_canonical flags only look at the "
+                              "position of the quantum-number centre); a warm start from a non-canonical state then reports energies below the exact ground energy")
+    return n
+
+
 def run(chk):
     src = chk.src
     chk.explanation = (
@@ -59,6 +100,8 @@ def run(chk):
     chk.rule("heff-network", "effective-Hamiltonian kernel == canonical network (per configuration)", 22)
     chk.rule("inverse-sibling", "direct matrix, preconditioner diagonal and matrix-vector product are each multiplied by `inverse` exactly once", 3)
     chk.rule("mask-sibling", "iterative solver: trial vector unpacked and result packed with the same sector mask", 2)
+    chk.rule("entry-gauge", "optimize_mps orthonormalises its input before building environments, on every path, and builds the environments of the matching side", 8)
+    entry_gauge_rule(chk, src)
     chk.rule("arg-order", "kernels are called with same-named arguments in parameter order", 4)
     cases = K.hop_expr_cases(src) + K.ham_direct_cases(src) + K.hdiag_cases(src)
     add_cases(chk, "heff-network", cases, "effective Hamiltonian")
